@@ -151,6 +151,21 @@ def alignment_guarded(b, defs, bb):
                 true_edge = t['otherwise'] if 0 in tg else tg.get(1)
                 false_edge = tg.get(0)
                 good_edge = true_edge if eq else false_edge
+        else:
+            # `match addr % align_of::<T>() { 0 => .. }`, alone or as a component of a matched tuple: the
+            # switch is on the remainder itself and the edge taken for 0 is the aligned one
+            y = x
+            if y[0] == 'place' and y[1]['p'] and isinstance(y[1]['p'][-1], dict) and 'f' in y[1]['p'][-1] and len(y[1]['p']) == 1:
+                d = single_def(defs, y[1]['l'])
+                if d and d[0] == 'stmt' and d[3]['rv']['k'] == 'aggregate':
+                    fl = d[3]['rv'].get('fields') or []
+                    fi = y[1]['p'][-1]['f']
+                    if isinstance(fi, int) and fi < len(fl):
+                        y = trace_value(b, defs, fl[fi])[-1]
+            if y[0] == 'rv' and y[1]['k'] == 'bin' and y[1]['op'] == 'Rem':
+                z = trace_value(b, defs, y[1]['r'])[-1]
+                if z[0] == 'call' and callee_path(z[1]) == 'core::mem::align_of' and 0 in tg:
+                    good_edge = tg[0]
         if good_edge is None:
             continue
         if bb not in b.reachable(0, unwind=False, removed_edges=[(sb, good_edge)]):
@@ -295,6 +310,27 @@ def rule_prim(ctx, crate):
                         '%s stores through a pointer derived from a shared borrow (`%s` + %s, then cast to *mut): the pointer carries no write permission, stores through it are undefined and may be discarded by the optimiser' % (
                             name, root[1] if root_ok else root, 'as_ptr' if ch['via_mut_ptr'] is False else 'no slice pointer'),
                         key=name + '.prov')
+        if name == 'write':
+            # the value handed over is owned by the record afterwards: outside the unwinding paths the
+            # primitive may not destroy it (a path that stores nothing and lets `t` fall out of scope drops a
+            # value the generated Drop / unpack / conversion code will read and drop again)
+            owned = {3}
+            changed = True
+            while changed:
+                changed = False
+                for _, _, st_ in b.statements():
+                    if st_['k'] == 'assign' and not st_['place']['p'] and st_['rv']['k'] in ('use', 'aggregate', 'cast'):
+                        ops = [st_['rv'].get('op')] if st_['rv']['k'] != 'aggregate' else st_['rv'].get('fields', [])
+                        for o in ops:
+                            if isinstance(o, dict) and 'move' in o and o['move']['l'] in owned and st_['place']['l'] not in owned:
+                                owned.add(st_['place']['l'])
+                                changed = True
+            ctx.inst('R-PRIM-CONSUME', 'write: value parameter and the %d locals it is moved into' % (len(owned) - 1))
+            for bi, blk in enumerate(b.blocks):
+                t_ = blk['term']
+                if t_['k'] == 'drop' and not blk['cleanup'] and t_['place']['l'] in owned:
+                    ctx.add(['C04', 'C06', 'C07'], 'R-PRIM', PRIM + name, 'the value handed to `write` is destroyed inside the primitive on a path that does not unwind (drop of %s in bb%d): the record keeps, and later drops again, a value that is already gone' % (place_str(t_['place']), bi), key=name + '.consume')
+                    break
         summary[name] = {'aligned': aligned, 'where': where, 'body': b.d}    # (the body, helpers inlined, for G-PRIM)
         # unwinding
         from geninterp import NO_UNWIND_EXTERNAL
@@ -311,6 +347,7 @@ def rule_prim(ctx, crate):
         ctx.add(['C04'], 'R-PRIM', PRIM + 'new', 'primitive not found (anchor lost)', key='new')
     ctx.floor(['C04', 'C07'], 'R-PRIM', 4)
     ctx.floor(['C04', 'C07'], 'R-PRIM-PROV', 2)
+    ctx.floor(['C04', 'C06', 'C07'], 'R-PRIM-CONSUME', 1)
     return summary
 
 
@@ -389,6 +426,14 @@ HASH_ORDER_OPS = re.compile(r'(^(std::collections::hash|hashbrown)::(map::HashMa
                             r'|^<(std::collections::hash|hashbrown)::(map::HashMap|set::HashSet)<.*> as core::(fmt::Debug|cmp::PartialOrd|hash::Hash)>::'
                             r'|^<(std::collections::hash|hashbrown)::(map|set)::(Iter|IntoIter|Keys|Values|Drain)<.*> as core::iter::traits::iterator::Iterator>::)')
 NONDET_CALLS = re.compile(r'^(std::env::(var|vars|var_os|vars_os|args|args_os|temp_dir|current_dir)|std::time::|std::thread::|std::process::id|rand|getrandom|std::hash::random|core::ptr::[a-z_:<>* A-Za-z]*::(addr|expose_provenance|expose_addr)|core::ptr::(eq|addr_eq|fn_addr_eq|hash)$|(alloc::rc::Rc|alloc::sync::Arc)::<[^>]*>::ptr_eq|<\*(const|mut) [A-Za-z_]+ as core::(cmp::(PartialEq|PartialOrd|Ord)|hash::Hash)>::|std::fs::read_dir|std::sys)')
+
+
+# addresses as keys: an ordering / hashing / deduplicating / keyed-collection operation instantiated with a raw
+# pointer (alone or inside a tuple / reference / array) orders or identifies values by where they live.  The
+# comparison itself then happens inside the standard library, so no pointer `Lt` / `Eq` shows in truc's own MIR.
+KEYED_OPS = re.compile(r'(sort|::cmp$|::partial_cmp$|::(lt|le|gt|ge|eq|ne)$|::(min|max)(_by|_by_key)?$|binary_search|dedup|is_sorted|partition_point|::hash$|hash_one|collections::(btree|hash|binary_heap)|hashbrown::|BTreeMap|BTreeSet|HashMap|HashSet|BinaryHeap|::(unique|group_by|chunk_by)|core::cmp::)')
+RAW_PTR = re.compile(r'(^|[^A-Za-z0-9_])\*(const|mut) ')
+KEYED_COLL_OF_PTR = re.compile(r'(BTreeMap|BTreeSet|HashMap|HashSet|BinaryHeap)<[(\[&]*\*(const|mut) ')
 
 
 STATE_TYPES = re.compile(r'(core::cell::|std::cell::|std::sync::|core::sync::atomic|std::sync::atomic|alloc::sync::Arc<(core|std)::(cell|sync)|once_cell::|lazy_static::)')
@@ -474,6 +519,8 @@ def scan_nondeterminism(ctx, crate, rule='N-DET', props=('C19',)):
     for b in crate.bodies:
         n_bodies += 1
         for i, l in enumerate(b.locals):
+            if KEYED_COLL_OF_PTR.search(l['ty'] or ''):
+                ctx.add(list(props), rule, b.key, 'a keyed collection of raw pointers (`%s`): its order / membership follows addresses' % l['ty'], key='%s|ptrkey' % b.key)
             if NONDET_TYPES.search(l['ty'] or ''):
                 ctx.add(list(props), rule, b.key, 'a value of type `%s` is used (hash-ordered / random / time / thread state makes the output depend on more than the request history)' % l['ty'], key='%s|type|%s' % (b.key, NONDET_TYPES.search(l['ty']).group(1)))
                 break
@@ -487,6 +534,10 @@ def scan_nondeterminism(ctx, crate, rule='N-DET', props=('C19',)):
             for ta in callee_ty_args(t):
                 if NONDET_TYPES.search(ta or ''):
                     ctx.add(list(props), rule, b.key, 'call instantiated with `%s` at %s' % (ta, fmt_span(t['span'])), key='%s|targ|%s' % (b.key, NONDET_TYPES.search(ta).group(1)))
+            if not (t.get('span') or {}).get('exp'):
+                paths = [p for p in (callee_path(t), callee_decl_path(t)) if p]
+                if any(KEYED_OPS.search(p) for p in paths) and (any(RAW_PTR.search(ta or '') for ta in callee_ty_args(t)) or any(RAW_PTR.search(p) for p in paths)):
+                    ctx.add(list(props), rule, b.key, 'an ordering / hashing / keyed-collection operation (`%s`) is instantiated with a raw pointer at %s: values are ordered or identified by where they happen to live' % (paths[0].split('::')[-1], fmt_span(t['span'])), key='%s|ptrkey' % b.key)
         for bb_st, _, st in b.statements():
             if st['k'] == 'assign' and st['rv']['k'] == 'cast' and st['rv']['ck'] in ('PointerExposeProvenance', 'PointerExposeAddress'):
                 ctx.add(list(props), rule, b.key, 'pointer-to-integer cast at %s (addresses differ between runs)' % fmt_span(st.get('span')), key='%s|ptr2int' % b.key)
